@@ -12,7 +12,7 @@ LEVEL_TEXT = (
     'end or a closed cycle; Path values are only built by re-executing the model; parent pointers '
     'are the expanding job. Does not decide fingerprint collisions or model determinism.')
 
-FLOORS = {'C03-R1': 12, 'C03-R2': 3, 'C03-R3': 4, 'C03-R4': 1, 'C03-R5': 6, 'C03-R6': 4, 'C03-R7': 1, 'C03-R8': 1}
+FLOORS = {'C03-R1': 12, 'C03-R2': 3, 'C03-R3': 4, 'C03-R4': 1, 'C03-R5': 6, 'C03-R6': 4, 'C03-R7': 1, 'C03-R8': 1, 'C11-R1': 14}
 
 
 # --------------------------------------------------------------------------------------------
@@ -400,6 +400,13 @@ def run(ctx):
     with ctx.rule('C03-R8', 'SIM'):
         r8_sim_evaluated_state_in_boundary(ctx, F)
     r6_parent_pointers(ctx, F)
+    # "no state on the path satisfies the condition" rests on the eventually bit of *that* property being the
+    # one cleared when its condition holds: the bit bookkeeping of C11
+    ctx.doc('C11-R1', 'eventually bits are set/cleared/tested by the position in Model::properties() (enumerate '
+                      'directly over the properties slice), cleared only when the condition held, inherited by '
+                      'successors')
+    import c11
+    c11.r1_bits(ctx, F)
 
 
 def r8_sim_evaluated_state_in_boundary(ctx, F, rule='C03-R8'):
